@@ -994,8 +994,8 @@ class TermBuilder:
                     pieces = tm.pieces_of(ft)
                     if len(pieces) > 1 and all(isinstance(v, Sym) and "." in v.name and "@" not in v.name for _g, v in pieces):
                         return PW([(g_, App(v.name, args, kw)) for g_, v in pieces])
-            if c.kind in ("external", "builtin"):
-                return tm.make_app(name, args, kw)       # zip(*pairs) and friends have a sequence-domain meaning
+            if c.kind in ("external", "builtin") and name == "builtins.zip":
+                return tm.make_app(name, args, kw)       # zip(*pairs) has a sequence-domain meaning (unzip)
             return App(name, args, kw)
         if c.kind in ("internal",) and c.func is not None:
             if self._inlinable(c.func):
